@@ -95,9 +95,12 @@ def oracle(stream, header, ops, obs):
                 return bad(k, name + "-vector-length-is-not-node-bound")
             for x in range(bound):
                 want = d.get(x, inf)
+                beyond = name == "spfa" and want >= I32MAX     # no path sum below max() exists: every candidate is skipped or not smaller, the node stays at max()
+                if beyond:
+                    want = I32MAX
                 if dist[x] != want:
                     return bad(k, name + "-distance-wrong", (x, want))
-                if x == a[0] or x not in d:
+                if x == a[0] or x not in d or beyond:
                     if pred[x] != -1:
                         return bad(k, name + "-predecessor-on-source-or-unreachable-node", x)
                 else:
@@ -139,7 +142,7 @@ def oracle(stream, header, ops, obs):
             D = {s: bf_exact(v, s) for s in range(n)}
             for i in range(n):
                 for j in range(n):
-                    want = D[i].get(j, I32MAX)
+                    want = min(D[i].get(j, I32MAX), I32MAX)       # a distance beyond i32 is never formed: the pair stays at max()
                     if m[i * n + j] != want:
                         return bad(k, "floyd-warshall-distance-wrong", (i, j, want))
             if name == "floyd_warshall_path" and len(g) > 1:
@@ -147,7 +150,7 @@ def oracle(stream, header, ops, obs):
                 for i in range(n):
                     for j in range(n):
                         p = pv[i * n + j]
-                        if j not in D[i]:
+                        if j not in D[i] or D[i][j] >= I32MAX:
                             if p != -1:
                                 return bad(k, "floyd-warshall-predecessor-for-unreachable-pair", (i, j))
                         elif i != j:
